@@ -46,7 +46,7 @@ pub fn literal<'a>() -> impl Parser<'a, &'a str, Literal, Err<'a>> + Clone {
     recursive(|literal| {
         let int = just("-").or_not().then(number::<u64>()).map(|(sign, val)| {
             Literal::Int(if sign.is_some() {
-                -(val as i64)
+                (val as i64).wrapping_neg()
             } else {
                 val as i64
             })
@@ -237,6 +237,10 @@ mod test {
             TestCase {
                 string: "-1",
                 result: Literal::Int(-1),
+            },
+            TestCase {
+                string: "-9223372036854775808",
+                result: Literal::Int(i64::MIN),
             },
             TestCase {
                 string: "1.1",
